@@ -1271,6 +1271,18 @@ class Interp:
                 if name == 'clear':
                     o.clear()
                     return None
+                if name in ('lower_bound', 'upper_bound') and len(args) == 1:
+                    # ordered map: first element whose key is not less than (lower) / greater than (upper) the argument
+                    ends = self.__dict__.setdefault('_map_ends', {})
+                    end = ends.setdefault(id(o), Obj('map-iterator', {}, 'end()'))
+                    k_ = self.expr(args[0], env)
+                    k_ = k_[1] if isinstance(k_, tuple) and k_[:1] == ('str',) else (k_.lo if isinstance(k_, IV) and k_.concrete() else None)
+                    if k_ is None or any(type(x) is not type(k_) for x in o):
+                        raise NeedSplit(None, 'map key not concrete at %s' % pos(n))
+                    cands = sorted(x for x in o if (x >= k_ if name == 'lower_bound' else x > k_))
+                    if not cands:
+                        return end
+                    return Obj('map-iterator', {'first': cands[0], 'second': o[cands[0]]}, 'iterator')
                 if name in ('find', 'end', 'cend'):
                     ends = self.__dict__.setdefault('_map_ends', {})
                     end = ends.setdefault(id(o), Obj('map-iterator', {}, 'end()'))
